@@ -91,43 +91,33 @@ Proof.
   - reflexivity.
 Qed.
 
-(* ---- CSV mode: $i after `getline var` ---- *)
+(* ---- CSV mode: the two parallel slices behind $i stay the same length ---- *)
 
-Definition csv_fields_full_statement : Prop :=
-  forall ops, (forall o, In o ops -> match o with ORecord n | OGetlineVar n => 0 <= n | OField i => 1 <= i | ONF => True end) ->
-  f_run fs_init ops <> None.
-
-(* BEGIN { n = NF; getline x; print $1 } on CSV input "a,b,c": finding F-C02-8 *)
-Theorem csv_getline_var_refuted : ~ csv_fields_full_statement.
-Proof.
-  intros H. apply (H [ONF; OGetlineVar 3; OField 1]); [|reflexivity].
-  intros o [<-|[<-|[<-|[]]]]; lia.
-Qed.
-
-Definition no_getline_var (ops : list fop) : Prop := forall o, In o ops -> match o with OGetlineVar _ => False | _ => True end.
-
-Lemma f_run_inv : forall ops s, no_getline_var ops ->
+Lemma f_run_inv : forall ops s,
   (fs_have s = true -> fs_true s = fs_fields s) -> f_run s ops <> None.
 Proof.
-  induction ops as [|o ops IH]; intros s Hn Hinv; cbn [f_run]; [discriminate|].
-  assert (Hn' : no_getline_var ops) by (intros o' Ho'; apply Hn; right; exact Ho').
-  pose proof (Hn o (or_introl eq_refl)) as Ho.
+  induction ops as [|o ops IH]; intros s Hinv; cbn [f_run]; [discriminate|].
   assert (He : fs_have (f_ensure s) = true /\ fs_true (f_ensure s) = fs_fields (f_ensure s)).
   { unfold f_ensure. destruct (fs_have s) eqn:E; cbn [fs_have fs_true fs_fields]; [split; [exact E|auto]|split; reflexivity]. }
   destruct o as [n|n| |i]; cbn [f_step].
-  - apply IH; [exact Hn'|]. cbn [fs_have]. discriminate.
-  - destruct Ho.
-  - apply IH; [exact Hn'|]. intros _. apply He.
+  - apply IH. cbn [fs_have]. discriminate.
+  - apply IH. cbn [fs_have fs_true fs_fields]. exact Hinv.
+  - apply IH. intros _. apply He.
   - destruct He as [He1 He2].
     destruct (fs_fields (f_ensure s) <? i) eqn:E1.
-    + apply IH; [exact Hn'|]. intros _. exact He2.
+    + apply IH. intros _. exact He2.
     + destruct (i <=? fs_true (f_ensure s)) eqn:E2; [|lia].
-      apply IH; [exact Hn'|]. intros _. exact He2.
+      apply IH. intros _. exact He2.
 Qed.
 
-(* without `getline var` the two slices stay the same length whenever the fields are current *)
-Theorem csv_fields_partial : forall ops, no_getline_var ops -> f_run fs_init ops <> None.
-Proof. intros ops Hn. apply f_run_inv; [exact Hn|]. cbn. discriminate. Qed.
+(* whatever sequence of records read by the main loop, records read by `getline var`, uses of NF
+   and reads of $i happens, getField never indexes p.fieldsIsTrueStr out of range *)
+Theorem csv_fields_never_panic : forall ops, f_run fs_init ops <> None.
+Proof. intros ops. apply f_run_inv. cbn. discriminate. Qed.
+
+(* `getline var` leaves the state of the current record exactly as it was *)
+Theorem getline_var_keeps_fields : forall s n, f_step s (OGetlineVar n) = Some s.
+Proof. intros [f t h] n. reflexivity. Qed.
 
 (* ---- the hypothesis on the primitives is satisfiable: any primitive record, with CallBuiltin
         forced to the table's arities, conforms ---- *)
